@@ -72,6 +72,25 @@ Record GaussFacts : Prop := {
   gf_star : forall l x, 0 <= l <= 1 -> 0 <= x -> l * (Phi x - / 2) <= Phi (l * x) - / 2;
   gf_tail8 : / 4503599627370496 < Phi (- 8)
 }.
+
+(** The part of [GaussFacts] that speaks about the distribution function alone (no density):
+    all that the prediction theorems (C09-C12) need.  It is instantiated, without any
+    hypothesis, in [GaussInst.v]. *)
+Record GaussCDF : Prop := {
+  gc_mono : forall x y, x < y -> Phi x < Phi y;
+  gc_sym : forall x, Phi (- x) = 1 - Phi x;
+  gc_range : forall x, 0 < Phi x < 1;
+  gc_inv : forall p, 0 < p < 1 -> Phi (Phiinv p) = p;
+  gc_window : forall a b h, 0 <= h -> Rabs a <= Rabs b ->
+      Phi (b + h) - Phi (b - h) <= Phi (a + h) - Phi (a - h);
+  gc_star : forall l x, 0 <= l <= 1 -> 0 <= x -> l * (Phi x - / 2) <= Phi (l * x) - / 2
+}.
+Lemma GaussFacts_CDF : GaussFacts -> GaussCDF.
+Proof.
+  intros G. constructor.
+  - apply (gf_mono G). - apply (gf_sym G). - apply (gf_range G). - apply (gf_inv G).
+  - apply (gf_window G). - apply (gf_star G).
+Qed.
 End RInst.
 
 (** ** Elementary consequences and the reading of the model's constants. *)
